@@ -11,6 +11,9 @@ B <fd> ...             -- numbers open elsewhere when the scenario starts
 e o <fd> | e c <fd>    -- another party opened / closes the number
 n o <fd> | n c <fd>    -- netpoll was given the number by the kernel / netpoll issued close(fd)
 n a <fd> | n r <fd>    -- the harness handed the number to netpoll / took it back after Detach (ghost events)
+a <choice> <+|->       -- like A, but only a preference (see below)
+I <k> <site>           -- instance k never passes that call site (e.g. its Dial returned an error, so no connection
+                       -- exists whose close callbacks could run)
 A <choice> <+|->       -- what the harness knows about an outcome that leaves no trace in the events (e.g. that it
                        -- never calls Detach, or closes through server.Close); restricts the model's choices
 E complete|open        -- end; `complete`: every lifecycle of the scenario is supposed to be finished
@@ -22,8 +25,9 @@ R <name> owned=<ok|i:fd:was:twice> once=<ok|bad> left=<-|fd,..> conform=<ok|FAIL
 * `owned`, `once`, `left`: the specification monitors of `Netpoll.Fd` (`Mon.step`, `onceOK`, `leftOpen`) applied to the
   implementation's event sequence (spec oracle);
 * `conform`: there is a run of the composed model (`gstep`, the declared instances, any outcome of every choice)
-  whose observable trace is exactly the event sequence (`n a`/`n r` are ghost events, not matched); `sites`/`paths`:
-  the close sites and the choices of that run.
+  whose observable trace is exactly the event sequence; `sites`/`paths`: the close sites and the choices of that run.
+  `A` lines restrict the choices; `a` lines do so only at the first attempt (outcomes the harness cannot force but
+  that do not normally happen, e.g. a TCP self-connect) – if no run exists with them the search is repeated without.
 -/
 namespace Driver.Fd
 open Netpoll.Fd
@@ -42,6 +46,8 @@ structure Scenario where
   lines : List Line := []
   complete : Bool := true
   fixed : List (Br × Bool) := []
+  soft : List (Br × Bool) := []
+  forbid : List (Nat × Site) := []
 
 def parseKind (ws : List String) : Option Kind :=
   let num (s : String) := s.toNat?.getD 0
@@ -63,8 +69,8 @@ def allBr : List Br :=
 
 def brName (l : Br) : String := (reprStr l).replace "Netpoll.Fd.Br." ""
 
-def Scenario.assume (s : Scenario) : Br → Option Bool := fun l =>
-  (s.fixed.find? (·.1 == l)).map (·.2)
+def Scenario.assume (s : Scenario) (withSoft : Bool) : Br → Option Bool := fun l =>
+  ((s.fixed ++ (if withSoft then s.soft else [])).find? (·.1 == l)).map (·.2)
 
 def kindName : Kind → String
   | .dialTCP _ => "dialTCP" | .dialUnix _ => "dialUnix" | .accepted _ => "accepted" | .fdConn _ _ => "fdConn"
@@ -93,12 +99,12 @@ def firstBad (vs : List Verdict) : String :=
 /-! ### conformance search -/
 
 def isSilentHead : M Unit → Bool
-  | .at _ _ | .choose _ _ | .adopt _ _ _ | .rel _ _ _ => true
+  | .at _ _ | .choose _ _ => true
   | _ => false
 
 /-- all states reachable when only instance `i` performs silent steps (call-site visits, choices, ghost
 adopt/release), stopping where its next step is an open, a close or the end.  `fuel` bounds the depth. -/
-partial def silentClosure (A : Br → Option Bool) (g : G) (i : Nat) (fuel : Nat) : List G :=
+partial def silentClosure (A : Br → Option Bool) (forbid : List (Nat × Site)) (g : G) (i : Nat) (fuel : Nat) : List G :=
   match g.insts[i]? with
   | none => []
   | some m =>
@@ -107,11 +113,14 @@ partial def silentClosure (A : Br → Option Bool) (g : G) (i : Nat) (fuel : Nat
     else
       match m with
       | .choose l _ =>
-        let a := match gstep A g (.step i 0 true) with | some g' => silentClosure A g' i (fuel-1) | none => []
-        let b := match gstep A g (.step i 0 false) with | some g' => silentClosure A g' i (fuel-1) | none => []
+        let a := match gstep A g (.step i 0 true) with | some g' => silentClosure A forbid g' i (fuel-1) | none => []
+        let b := match gstep A g (.step i 0 false) with | some g' => silentClosure A forbid g' i (fuel-1) | none => []
         -- shortest explanation first: "nothing more happens" before "another action happens"
         if l == .conn_more || l == .ln_more || l == .poll_more then b ++ a else a ++ b
-      | _ => match gstep A g (.step i 0 true) with | some g' => silentClosure A g' i (fuel-1) | none => []
+      | .at st _ =>
+        if forbid.contains (i, st) then []
+        else match gstep A g (.step i 0 true) with | some g' => silentClosure A forbid g' i (fuel-1) | none => []
+      | _ => match gstep A g (.step i 0 true) with | some g' => silentClosure A forbid g' i (fuel-1) | none => []
 
 structure Search where
   budget : Nat
@@ -136,36 +145,62 @@ def candidates (g : G) (kinds : List Kind) : List Nat := Id.run do
         out := out ++ [i]
   return out
 
-partial def finishAll (A : Br → Option Bool) (g : G) (i n : Nat) : Option G :=
+partial def finishAll (A : Br → Option Bool) (forbid : List (Nat × Site)) (g : G) (i n : Nat) : Option G :=
   if i ≥ n then some g
   else
-    let alts := (silentClosure A g i 40).filter fun g' => match g'.insts[i]? with | some m => isDone m | none => false
-    alts.findSome? fun g' => finishAll A g' (i+1) n
+    let alts := (silentClosure A forbid g i 40).filter fun g' => match g'.insts[i]? with | some m => isDone m | none => false
+    alts.findSome? fun g' => finishAll A forbid g' (i+1) n
 
-partial def search (A : Br → Option Bool) (kinds : List Kind) (complete : Bool) (g : G) (idx : Nat) (ls : List Line) : StateM Search (Option G) := do
+partial def search (A : Br → Option Bool) (forbid : List (Nat × Site)) (kinds : List Kind) (complete : Bool) (g : G) (idx : Nat) (ls : List Line) : StateM Search (Option G) := do
   let st ← get
   if st.budget = 0 then return none
   set { st with budget := st.budget - 1, deepest := max st.deepest idx }
   match ls with
-  | [] => return (if complete then finishAll A g 0 kinds.length else some g)
-  | .adopt _ :: rest => search A kinds complete g (idx+1) rest
-  | .ev (.npRel _) :: rest => search A kinds complete g (idx+1) rest
+  | [] => return (if complete then finishAll A forbid g 0 kinds.length else some g)
+  | .adopt n :: rest =>
+    for i in candidates g kinds do
+      for g1 in silentClosure A forbid g i 40 do
+        match g1.insts[i]? with
+        | some (.adopt fd _ _) =>
+          if fd = n then
+            match gstep A g1 (.step i 0 true) with
+            | some g2 =>
+              match ← search A forbid kinds complete g2 (idx+1) rest with
+              | some r => return some r
+              | none => pure ()
+            | none => pure ()
+        | _ => pure ()
+    return none
+  | .ev (.npRel n) :: rest =>
+    for i in candidates g kinds do
+      for g1 in silentClosure A forbid g i 40 do
+        match g1.insts[i]? with
+        | some (.rel fd _ _) =>
+          if fd = n then
+            match gstep A g1 (.step i 0 true) with
+            | some g2 =>
+              match ← search A forbid kinds complete g2 (idx+1) rest with
+              | some r => return some r
+              | none => pure ()
+            | none => pure ()
+        | _ => pure ()
+    return none
   | .ev (.envOpen n) :: rest =>
     match gstep noAssumptions g (.envOpen n) with
-    | some g' => search A kinds complete g' (idx+1) rest
+    | some g' => search A forbid kinds complete g' (idx+1) rest
     | none => return none
   | .ev (.envClose n) :: rest =>
     match gstep noAssumptions g (.envClose n) with
-    | some g' => search A kinds complete g' (idx+1) rest
+    | some g' => search A forbid kinds complete g' (idx+1) rest
     | none => return none
   | .ev (.npOpen n) :: rest =>
     for i in candidates g kinds do
-      for g1 in silentClosure A g i 40 do
+      for g1 in silentClosure A forbid g i 40 do
         match g1.insts[i]? with
         | some (.opn _ _) =>
           match gstep noAssumptions g1 (.step i n true) with
           | some g2 =>
-            match ← search A kinds complete g2 (idx+1) rest with
+            match ← search A forbid kinds complete g2 (idx+1) rest with
             | some r => return some r
             | none => pure ()
           | none => pure ()
@@ -173,13 +208,13 @@ partial def search (A : Br → Option Bool) (kinds : List Kind) (complete : Bool
     return none
   | .ev (.npClose n) :: rest =>
     for i in candidates g kinds do
-      for g1 in silentClosure A g i 40 do
+      for g1 in silentClosure A forbid g i 40 do
         match g1.insts[i]? with
         | some (.cls fd _ _ _) =>
           if fd = n then
             match gstep noAssumptions g1 (.step i 0 true) with
             | some g2 =>
-              match ← search A kinds complete g2 (idx+1) rest with
+              match ← search A forbid kinds complete g2 (idx+1) rest with
               | some r => return some r
               | none => pure ()
             | none => pure ()
@@ -209,7 +244,15 @@ def judge (s : Scenario) : String :=
   let left := leftOpen envOpen obs
   let leftS := if left.isEmpty then "-" else ",".intercalate (left.map toString)
   let g0 : G := { (G.init envOpen) with insts := s.kinds.map Kind.prog }
-  let (r, st) := (search s.assume s.kinds s.complete g0 0 s.lines).run { budget := 200000, deepest := 0 }
+  -- a sequence the specification rejects needs no explanation by the model (and the search for one is the expensive case)
+  if owned != "ok" || once != "ok" then
+    s!"R {s.name} owned={owned} once={once} left={leftS} conform=skipped sites=- paths=-"
+  else
+  let (r1, st1) := (search (s.assume true) s.forbid s.kinds s.complete g0 0 s.lines).run { budget := 200000, deepest := 0 }
+  let (r, st) := match r1 with
+    | some _ => (r1, st1)
+    | none => if s.soft.isEmpty then (r1, st1) else
+        (search (s.assume false) s.forbid s.kinds s.complete g0 0 s.lines).run { budget := 200000, deepest := 0 }
   let (conf, sites, paths) := match r with
     | some g => let d := describeRun s.kinds g; ("ok", d.1, d.2)
     | none => (if st.budget = 0 then "BUDGET" else s!"FAIL@{st.deepest}", "-", "-")
@@ -224,6 +267,12 @@ def parseLine (cur : Scenario) (ws : List String) : Scenario :=
   | "B" :: rest => { cur with base := rest.map num }
   | ["A", l, v] => match allBr.find? (fun b => brName b == l) with
     | some b => { cur with fixed := cur.fixed ++ [(b, v == "+")] }
+    | none => cur
+  | ["I", k, st] => match Site.all.find? (fun x => x.name == st) with
+    | some x => { cur with forbid := cur.forbid ++ [(num k, x)] }
+    | none => cur
+  | ["a", l, v] => match allBr.find? (fun b => brName b == l) with
+    | some b => { cur with soft := cur.soft ++ [(b, v == "+")] }
     | none => cur
   | ["e", "o", n] => { cur with lines := cur.lines ++ [.ev (.envOpen (num n))] }
   | ["e", "c", n] => { cur with lines := cur.lines ++ [.ev (.envClose (num n))] }
